@@ -532,6 +532,21 @@ QUICK_SIZES = [(1, 1), (2, 1), (1, 1, 1), (1, 2, 1)]
 THOROUGH_SIZES = [(1, 1, 1, 1), (2, 1, 2)]
 
 
+# larger games, each with a few hand-picked orderings (a 5-cycle of the presentation, tie groups of three and four, six teams): cheap for
+# the rules that need no denominators cleared across many pair scales (closed forms, positions, predictions)
+LARGE_GAMES = [
+    ((1, 1, 1, 1, 1), (2, 0, 4, 1, 3)),
+    ((1, 1, 1, 1, 1), (0, 0, 1, 1, 1)),
+    ((1, 1, 1, 1, 1), (0, 1, 1, 1, 1)),
+    ((1, 1, 1, 1, 1, 1), (0, 1, 2, 3, 4, 5)),
+    ((1, 1, 1, 1, 1, 1), (3, 3, 0, 3, 3, 1)),
+    ((3, 1), (1, 0)),
+    ((3, 1), (0, 0)),
+    ((1, 3, 2), (1, 0, 1)),
+    ((2, 3), (0, 1)),
+]
+
+
 def _sizes(tier: str):
     return QUICK_SIZES + (THOROUGH_SIZES if tier == "thorough" else [])
 
@@ -702,10 +717,11 @@ def c02_job(job) -> List[Dict[str, Any]]:
     prog = Program()
     roles = prog.roles()[idx]
     out = []
-    for sizes in _sizes(tier):
+    all_cases = [(sizes, lv, mode) for sizes in _sizes(tier) for (lv, mode) in [(lv, mode) for lv in weak_orderings(len(sizes)) for mode in ("ranks", "scores")] + [(None, "none")]]
+    all_cases += [(sizes, lv, mode) for sizes, lv in LARGE_GAMES for mode in ("ranks", "scores")]
+    for sizes, lv, mode in all_cases:
         n = len(sizes)
-        cases = [(lv, mode) for lv in weak_orderings(n) for mode in ("ranks", "scores")] + [(None, "none")]
-        for lv, mode in cases:
+        if True:
             for ls in (False, True):
                 desc = f"result[i][j] is the player passed at teams[i][j]: team sizes {sizes}, {mode} {describe(lv) if lv else ''}, limit_sigma={ls}".replace("  ", " ")
                 try:
@@ -940,7 +956,7 @@ def case_split(term_fn, depth: int = 2, rels=()):
 
 
 PRED_SIZES = [(1, 1), (2, 1), (1, 1, 1), (1, 2, 1)]
-PRED_THOROUGH = [(1, 1, 1, 1), (2, 1, 1, 2)]
+PRED_THOROUGH = [(1, 1, 1, 1), (2, 1, 1, 2), (1, 1, 1, 1, 1), (3, 2, 1)]
 
 
 def _pred_sizes(tier: str):
